@@ -77,7 +77,14 @@ EXTRA = {"C20": extra.sanitizer_phase, "C14": extra.puml_tokenizer_phase,
 
 # random machine definitions (gen/randdef.py, name rand<seed>) added to the conformance phase: a few fixed seeds in the quick tier
 # (their drivers stay in the ccache), more in the thorough tier
-RAND = {}
+RAND = {
+ "C01": ((7, 12), (18, 30, 33, 34, 35, 36)),
+ "C02": ((9, 46), (23, 28, 37, 38, 40, 49)),
+ "C03": ((3, 18), (7, 9, 12, 27, 41, 42)),
+ "C06": ((27, 49), (30, 3, 12, 43, 44, 45)),
+ "C07": ((7, 28), (9, 18, 46, 47, 48, 50)),
+ "C13": ((3, 8, 23), (11, 12, 27, 46, 49, 51, 53, 54, 55, 56, 57, 58)),
+}
 def rand_seeds(prop, tier):
     q, t = RAND.get(prop, ((), ()))
     return list(q) if tier == "quick" else list(q) + list(t)
